@@ -250,3 +250,79 @@ Theorem tbl_injective tb a b v : tbl_ok tb -> tbl_find tb a = Some v -> tbl_find
 Proof.
   intros [A _] Ha Hb. apply tbl_find_in in Ha, Hb. eapply nodup_snd_inj; eauto. rewrite A. apply seq_NoDup.
 Qed.
+
+(** ---- the exact behaviour of the DOT edge loop, and "no admitted link is missing" ---- *)
+Section Dot.
+Variables (f stop : id -> bool).
+
+Lemma edges_dot_false ml t : forall d, edges_dot f stop ml d false t = [].
+Proof.
+  induction t as [n cs IH] using tree_ind'. intros d. cbn [edges_dot andb].
+  rewrite flat_map_nil. cbn [app]. apply flat_map_all_nil. eapply Forall_impl; [|exact IH]. intros c Hc. apply Hc.
+Qed.
+Lemma edges_dot_beyond ml t : forall d ok, below (d + 1) ml = false -> edges_dot f stop ml d ok t = [].
+Proof.
+  induction t as [n cs IH] using tree_ind'. intros d ok B. cbn [edges_dot].
+  rewrite B. rewrite flat_map_ext_Forall with (h := fun _ => []).
+  2:{ apply Forall_forall. intros c _. rewrite !andb_false_r. reflexivity. }
+  rewrite flat_map_nil. cbn [app]. apply flat_map_all_nil. eapply Forall_impl; [|exact IH].
+  intros c Hc. apply Hc. apply below_mono. exact B.
+Qed.
+
+Lemma dot_iter_exact ml0 t : forall ml' d,
+  ml_rel ml' d (edge_ml ml0) ->
+  flat_map (child_edges f stop false) (pre_nodes_t f stop ml' t) = edges_dot f stop ml0 d true t.
+Proof.
+  induction t as [n cs IH] using tree_ind'. intros ml' d R. cbn [pre_nodes_t edges_dot andb].
+  assert (B : below d (edge_ml ml0) = true).
+  { unfold ml_rel in R. destruct ml' as [m|], (edge_ml ml0) as [m0|]; simpl in *; try tauto. destruct R. lia. }
+  rewrite below_edge in B. rewrite (below_weaken _ _ B), B.
+  destruct (stop n) eqn:S.
+  { cbn [negb andb flat_map]. rewrite flat_map_nil. cbn [app]. symmetry.
+    apply flat_map_all_nil. apply Forall_forall. intros c _. apply edges_dot_false. }
+  cbn [negb andb]. rewrite flat_map_app. f_equal.
+  - destruct (f n) eqn:F.
+    + cbn [flat_map]. rewrite app_nil_r. unfold child_edges. cbn [kids label negb orb].
+      apply flat_map_ext_Forall. apply Forall_forall. intros c Hc. rewrite andb_true_r. reflexivity.
+    + cbn [flat_map]. symmetry. apply flat_map_all_nil. apply Forall_forall. intros c _. reflexivity.
+  - assert (AB : abort_at_level 2 ml' = negb (below (d + 1) (edge_ml ml0))).
+    { unfold ml_rel in R. destruct ml' as [m|], (edge_ml ml0) as [m0|]; simpl in *; try tauto.
+      destruct R as [-> R]. destruct (Z.ltb_spec m 2), (Z.ltb_spec (d + 1) (d + m)); simpl; auto; lia. }
+    rewrite AB. destruct (below (d + 1) (edge_ml ml0)) eqn:B1; cbn [negb].
+    + rewrite flat_map_flat_map. apply flat_map_ext_Forall.
+      apply Forall_forall. intros c Hc. rewrite Forall_forall in IH. apply (IH c Hc).
+      unfold ml_rel in *. destruct ml' as [m|], (edge_ml ml0) as [m0|]; simpl in *; try tauto.
+      destruct R as [-> R]. apply Z.ltb_lt in B1. destruct (Z.eqb_spec m 0); [lia|]. split; lia.
+    + cbn [flat_map]. symmetry. apply flat_map_all_nil. apply Forall_forall. intros c _.
+      apply edges_dot_beyond. rewrite <- below_edge. exact B1.
+Qed.
+
+(** what DotExporter draws, for every filter_, stop and maxlevel - no guard *)
+Theorem dot_edges_exact ml t : dot_edges f stop ml t = edges_dot f stop ml 0 true t.
+Proof.
+  rewrite dot_edges_child. unfold pre_nodes, init_children, get_children.
+  change 1 with (0 + 1). rewrite abort_below.
+  destruct (below 0 (edge_ml ml)) eqn:B; cbn [negb].
+  - cbn [filter]. destruct (stop (label t)) eqn:S; cbn [negb flat_map].
+    + destruct t as [n cs]. cbn [label] in S. cbn [edges_dot]. rewrite S. cbn [negb andb].
+      rewrite flat_map_nil. cbn [app]. symmetry. apply flat_map_all_nil. apply Forall_forall. intros c _. apply edges_dot_false.
+    + rewrite app_nil_r. apply dot_iter_exact.
+      unfold ml_rel. destruct (edge_ml ml) as [m|]; simpl in *; auto. apply Z.ltb_lt in B. split; lia.
+  - cbn [flat_map]. symmetry. apply edges_dot_beyond. rewrite <- below_edge. exact B.
+Qed.
+
+(** every edge between two admitted, filtered nodes is among them *)
+Lemma edges_ann_incl ml t : forall d ok e, In e (edges_ann f stop ml d ok t) -> In e (edges_dot f stop ml d ok t).
+Proof.
+  induction t as [n cs IH] using tree_ind'. intros d ok e. cbn [edges_ann edges_dot]. rewrite !in_app_iff.
+  intros [H|H]; [left|right].
+  - apply in_flat_map in H. destruct H as [c [Hc He]]. apply in_flat_map. exists c. split; auto.
+    destruct (ok && negb (stop n) && below d ml && f n) eqn:A; cbn [andb] in *; [|destruct He].
+    destruct (negb (stop (label c))); cbn [andb] in *; [|destruct He].
+    destruct (below (d + 1) ml); cbn [andb] in *; [|destruct He]. exact He.
+  - apply in_flat_map in H. destruct H as [c [Hc He]]. apply in_flat_map. exists c. split; auto.
+    rewrite Forall_forall in IH. apply (IH c Hc). exact He.
+Qed.
+Theorem dot_no_link_missing ml t : forall e, In e (edges_ann f stop ml 0 true t) -> In e (dot_edges f stop ml t).
+Proof. intros e H. rewrite dot_edges_exact. apply edges_ann_incl. exact H. Qed.
+End Dot.
